@@ -328,20 +328,33 @@ def wire(batch, res):
                 sc["script"].append({"t": t, "side": "client", "op": "write", "sid": 400 + 4 * i, "n": 1500, "fin": True})
             sc["script"].sort(key=lambda o: o["t"])
             res.count("wire_runs_0rtt_with_version_upgrade")
+            if seed % 10 == 0:
+                # every tenth run: the server remembers the ticket and accepts the early data, nothing is lost: the
+                # 0-RTT packets (sent with the version of the first flight) must be opened by the server although it
+                # answers with the other version
+                sc["opts"].pop("resume_forget", None)
+                sc["opts"].pop("certfile", None)
+                sc["fates"].pop("forced", None)
+                sc["fates"]["loss"] = 0.0
+                sc["fates"]["corrupt_first"] = 0.0
+                res.count("wire_runs_0rtt_accepted_with_version_upgrade")
         tm = monitors.TapMonitor()
+        po = monitors.PeerOpensMonitor()
         fates = simnet.Fates(seed, sc["fates"])
-        sim = simnet.SimNet(sc["opts"], fates, sc["script"], [tm], seed=seed, tap=True, horizon=sc["fates"]["adv_seconds"] + 30.0)
+        sim = simnet.SimNet(sc["opts"], fates, sc["script"], [tm, po], seed=seed, tap=True, horizon=sc["fates"]["adv_seconds"] + 30.0)
         case = {"gen": "wire", "seeds": [seed]}
         res.evaluations += 1
         try:
             simnet.run_sim(sim)
         except Violation as v:
-            if v.signature.startswith("tap:"):
+            if v.signature.startswith("tap:") or v.signature.startswith("peer:"):
                 res.violation(v.signature, v.what, case, {"witness": v.witness, "opts": sc["opts"], "suite": suite})
             else:
                 # API exceptions etc. belong to other properties; here the run is just cut short
                 res.count("wire_run_cut_short")
         res.count("packets_tapped", tm.packets_tapped)
+        for k, v in po.checked.items():
+            res.count("peer_opened_genuine_" + k, v)
         for k, v in tm.by_type.items():
             res.count("tapped_" + k, v)
         gens = max([g for (_s, g) in tm.key_phases] + [0])
